@@ -81,7 +81,7 @@ def run_shard(sh, ctx):
 	for rnd in range(sh['nrounds']):
 		base = ctx.workdir / f'r{rnd}'
 		base.mkdir()
-		style = rng.choice(['mixed', 'mixed', 'identical-heavy', 'equidistant', 'two', 'many'])
+		style = rng.choice(['mixed', 'mixed', 'identical-heavy', 'equidistant', 'two', 'many', 'empties'])
 		n = {'two': 2, 'many': rng.randint(25, 40)}.get(style, rng.randint(3, 12))
 		G = _cli.Genomes(rng, base / 'genomes', n, identical_pairs=style != 'equidistant', empty=style == 'mixed', related=style != 'equidistant')
 		channel = rng.choice(['files', 'listfile', 'sigfile'])
@@ -91,6 +91,16 @@ def run_shard(sh, ctx):
 		idx = list(range(n))
 		if style == 'identical-heavy':
 			idx = idx + [rng.randrange(n) for _ in range(3)]      # the same genome file passed several times (duplicate labels, zero distances)
+		if style == 'empties':
+			# several genomes without any prefix occurrence: their signatures are empty and identical (distance 0 among them, 1 to the rest)
+			from vf.oracles.fasta import write_fasta as _wf
+			for j in range(rng.randint(2, 3)):
+				pth = G.dir / f'noprefix_{j}.fasta'
+				contigs = [b'C' * rng.randint(50, 300) + b'G' * rng.randint(0, 40)]
+				_wf(pth, contigs)
+				G.items.append(dict(path=pth, contigs=contigs, label=f'noprefix_{j}', name=pth.name))
+				idx.append(len(G.items) - 1)
+			rng.shuffle(idx)
 		labels = [G.items[i]['label'] for i in idx]
 		sigs_override = None
 		if style == 'equidistant' and channel == 'sigfile':
@@ -147,7 +157,7 @@ def run_shard(sh, ctx):
 
 def finalize(merged, tier, seed, inconclusive):
 	c = merged['counters']
-	for n in ['trees_validated', 'style:equidistant', 'style:identical-heavy', 'style:two', 'style:many', 'channel:files', 'channel:listfile', 'channel:sigfile',
+	for n in ['trees_validated', 'style:equidistant', 'style:identical-heavy', 'style:two', 'style:many', 'style:empties', 'channel:files', 'channel:listfile', 'channel:sigfile',
 	          'inputs_with_zero_distance', 'inputs_with_tied_distances']:
 		if c.get(n, 0) == 0:
 			inconclusive.append(f'class never observed: {n}')
